@@ -28,6 +28,7 @@ type op struct {
 	dac3               *mp4.Dac3Box
 	dec3               *mp4.Dec3Box
 	s1, s2, s3         string
+	exp                []uint64 // V/H: the values the parameter sets were generated from (nil: captured parameter sets)
 }
 
 func hs(s string) string { return hx.Hex([]byte(s)) }
@@ -123,7 +124,7 @@ func (o *op) String() string {
 				pr = fmt.Sprintf("%d.%d.%d.%d.%d.%d.%d.%d", w, h, p, c, l, cf, bl, bc)
 			}
 		}
-		return fmt.Sprintf("V:%d:%s:%s:%s:%s:%s", o.k, hs(o.name), nalus(o.sps), nalus(o.pps), b01(o.incl), pr)
+		return fmt.Sprintf("V:%d:%s:%s:%s:%s:%s:%s", o.k, hs(o.name), nalus(o.sps), nalus(o.pps), b01(o.incl), pr, u64sString(o.exp))
 	case 'H':
 		pr := "N"
 		if len(o.sps) > 0 {
@@ -135,7 +136,7 @@ func (o *op) String() string {
 				pr = strings.Join(ss, ".")
 			}
 		}
-		return fmt.Sprintf("H:%d:%s:%s:%s:%s:%s:%s:%s", o.k, hs(o.name), nalus(o.vps), nalus(o.sps), nalus(o.pps), nalus(o.sei), b01(o.incl), pr)
+		return fmt.Sprintf("H:%d:%s:%s:%s:%s:%s:%s:%s:%s", o.k, hs(o.name), nalus(o.vps), nalus(o.sps), nalus(o.pps), nalus(o.sei), b01(o.incl), pr, u64sString(o.exp))
 	case 'C':
 		return fmt.Sprintf("C:%d:%d:%d", o.k, o.objType, o.freq)
 	case '3':
